@@ -67,6 +67,9 @@ class G:
         self.lost = False
         self.stop = False
         self.held = {}
+        # a third of the flow-control traces acknowledge received data rarely, so that the advertised windows run down to the
+        # point where a frame of permitted size can overrun them
+        self.starve = self.rng.random() < 0.35
         self.hold = False                      # steps that leave their output in the buffer: only after the handshake
         self.unacked = {'c': {}, 's': {}}      # bytes received and not yet acknowledged, per stream (an input heuristic only)
 
@@ -175,6 +178,10 @@ class G:
                 pairs.append([sid, r.choice(SETTING_VALUES[sid][:5] if sid != 2 else [0, 1])])
         self.recv(x, [{'t': 'SET', 'ack': False, 's': pairs}])
         if r.random() < 0.8:
+            self.recv(x, [{'t': 'SET', 'ack': True, 's': []}])
+        if self.flavour == 'flow' and r.random() < 0.4:
+            # small own stream windows, acknowledged: the peer's DATA then meets (and can overrun) a window smaller than a frame
+            self.call(x, {'op': 'set', 's': [[4, r.choice([0, 1, 10, 100, 1000, 20000])]]})
             self.recv(x, [{'t': 'SET', 'ack': True, 's': []}])
 
     # ------------------------------------------------------------ calls
@@ -644,7 +651,7 @@ class G:
                 n = tot if r.random() < 0.6 else r.randrange(0, tot + 1)
                 self.unacked[x][sid] -= n
                 return {'op': 'ack', 'n': n, 'sid': sid}
-            opts.append((w('ack', 5), ack))
+            opts.append((w('ack', 5) * (0.08 if self.starve else 1), ack))
         opts.append((w('set', 1.2), lambda: {'op': 'set', 's': self.valid_set_pairs(x, False)}))
         opts.append((w('ping', 0.8), lambda: {'op': 'ping', 'tag': r.choice('ABZ'), 'n': 8}))
         if x == 'c':
@@ -699,6 +706,8 @@ class G:
                     return fr
                 opts.append((w('resp', 7), resp))
             parents = [t for t in ss if t['st'] in self.RECV_OK and t['sid'] % 2 == 1]
+            if parents and getattr(conn.local_settings, 'enable_push', 0) == 0 and f == 'push':
+                opts.append((2, lambda: {'t': 'PP', 'sid': r.choice(parents)['sid'], 'pid': (z.get('hiIn', 0) or 0) + 2, 'h': r.choice(REQ_OK), 'blk': 'ok'}))
             if parents and getattr(conn.local_settings, 'enable_push', 0) == 1:
                 def pp():
                     hi = z.get('hiIn', 0) or 0
@@ -729,17 +738,31 @@ class G:
                     n, pad, extra = 0, -1, 0
                     if rw < 0:
                         return {'t': 'PING', 'ack': False, 'tag': 'A'}
-                elif r.random() < 0.3:
+                elif r.random() < (0.75 if self.starve else 0.3):
                     n = lim
-                elif r.random() < 0.1 and lim + extra + 1 <= conn.max_inbound_frame_size:
+                elif r.random() < 0.2 and lim + extra + 1 <= conn.max_inbound_frame_size:
                     n = lim + 1                # one octet over the advertised window, in a frame of permitted size
                 else:
                     n = min(lim, r.choice([0, 1, 2, 3, 4, 10, 100, 1000, 16384, r.randrange(0, 70)]))
                 self.unacked[x][t['sid']] = self.unacked[x].get(t['sid'], 0) + n + extra
                 return {'t': 'DATA', 'sid': t['sid'], 'es': r.random() < 0.15, 'n': n, 'tag': 'B', 'pad': pad}
-            opts.append((w('data', 6), data))
+            opts.append((w('data', 6) * (2.5 if self.starve else 1), data))
             opts.append((w('trl', 1), lambda: {'t': 'HEADERS', 'sid': r.choice(recvable)['sid'], 'es': True, 'h': r.choice(TRL),
                                                'pr': [r.randrange(1, 257), 0, False] if r.random() < 0.15 else [], 'blk': 'ok'}))
+        # frames racing a local reset (C20): on streams this endpoint reset itself, still in the table or already collected
+        raced = [t['sid'] for t in ss if t['st'] == 'CLOSED' and t.get('by') == 'SRST'] + [c[0] for c in (z.get('closed') or []) if c[1] == 'SRST']
+        if raced:
+            def race():
+                sid = r.choice(raced)
+                k = r.random()
+                if k < 0.35:
+                    return {'t': 'DATA', 'sid': sid, 'es': r.random() < 0.3, 'n': r.choice([0, 1, 100, 1000]), 'tag': 'B', 'pad': r.choice([-1, -1, 0, 5])}
+                if k < 0.6:
+                    return {'t': 'HEADERS', 'sid': sid, 'es': r.random() < 0.5, 'h': r.choice(RESP_OK if x == 'c' else TRL), 'pr': [], 'blk': 'ok'}
+                if k < 0.8:
+                    return {'t': 'WU', 'sid': sid, 'inc': r.choice([1, 100, 65535])}
+                return {'t': 'RST', 'sid': sid, 'code': r.choice([0, 8])}
+            opts.append((w('rst', 1.5) * (3 if f in ('life', 'push') else 1), race))
         if live:
             opts.append((w('rst', 1), lambda: {'t': 'RST', 'sid': r.choice(live)['sid'], 'code': r.choice([0, 2, 5, 8])}))
             opts.append((w('wu', 1.5), lambda: {'t': 'WU', 'sid': r.choice(live)['sid'], 'inc': r.choice([1, 5, 100, 4000, 65535])}))
@@ -753,7 +776,7 @@ class G:
                                               'dep': r.choice([0, 11, 13]), 'excl': r.random() < 0.5}))
         opts.append((0.3, lambda: {'t': 'UNKNOWN', 'sid': r.choice([0, 1, 3])}))
         if 'goaway' in W:
-            opts.append((0.3, lambda: {'t': 'GOAWAY', 'last': r.choice([0, 1, 7]), 'code': r.choice([0, 2]), 'tag': r.choice(['-', 'A'])}))
+            opts.append((2.5 if self.held.get(x) else 0.3, lambda: {'t': 'GOAWAY', 'last': r.choice([0, 1, 7]), 'code': r.choice([0, 2]), 'tag': r.choice(['-', 'A'])}))
         return r.choices([o[1] for o in opts], [o[0] for o in opts])[0]()
 
     # ------------------------------------------------------------ header blocks given as octets
